@@ -1254,6 +1254,9 @@ class FuncAnalysis:
         if last in ("factorial", "prod", "sqrt", "log10", "isclose", "allclose", "trace", "det", "perm"):
             return NOV
         if dotted.startswith("numpy"):
+            if last in ("asarray", "asanyarray", "ascontiguousarray", "asfortranarray", "atleast_1d", "atleast_2d", "squeeze", "ravel", "reshape", "transpose", "swapaxes", "real", "imag", "view") and args:
+                # these return the argument itself or a view of it when no conversion is needed
+                return V(args[0].locs | frozenset({self.fresh(node, "#np")}), frozenset({"ndarray"}))
             return V(frozenset({self.fresh(node, "#np")}), frozenset({"ndarray"}))
         if last in ("Counter",):
             f = self.fresh(node, "#Counter")
